@@ -500,6 +500,14 @@ func (r *Regex) LiteralPrefix() (prefix string, complete bool) {
 		return "", false
 	}
 	re = re.Simplify()
+	// Patterns that do not start with \A / ^: exactly what regexp reports, the
+	// run of single-rune instructions at the start of the compiled program.
+	if prog, err := syntax.Compile(re); err == nil {
+		first := &prog.Inst[prog.Start]
+		if first.Op != syntax.InstEmptyWidth || syntax.EmptyOp(first.Arg)&syntax.EmptyBeginText == 0 {
+			return prog.Prefix()
+		}
+	}
 	return literalPrefix(re)
 }
 
